@@ -894,6 +894,12 @@ mpeg2_ts_serialize_data(const uint32_t pid, const uint8_t sc,
 	if ((NULL == af && 0 != af_size) || (NULL == data && 0 != data_size) ||
 	    NULL == buf || buf_size < mpeg2_ts_pkt_size)
 		return (EINVAL);
+	/* All packets must fit, not only first one. */
+	if (0 != mpeg2_ts_serialize_calc_size(af_size, pointer_size, data_size,
+	    mpeg2_ts_pkt_size, &tm, NULL))
+		return (EINVAL);
+	if (buf_size < tm)
+		return (ENOBUFS);
 	/* First packet: header + adaptation + pointer field. */
 	pkts_count = 0;
 	ts_hdr = (mpeg2_ts_hdr_p)buf;
